@@ -109,7 +109,10 @@ PairVerdict(k1, k2, n, m) ==
 (* C01: no overlap anywhere in the tiling.  ShellBound: an image whose      *)
 (* centre is within 2 Renc of a copy in the home cell has |m| <= KM and     *)
 (* |n| <= KN (rows of images parallel to A are by apart; lines parallel to  *)
-(* B are ax*by/|B| apart and |B| <= |bx| + by).                             *)
+(* B are ax*by/|B| apart and |B| <= |bx| + by).  Proved for all integers    *)
+(* with TLAPS in proofs/ShellBound.tla (theorem ShellBound: not Far implies *)
+(* |m| < KM and |n| < KN); TLC checks the consequence ShellBoundOK below on *)
+(* every thin state.                                                        *)
 KM == (2 * sh.renc) \div by + 2
 KN == (2 * sh.renc * (Abs(bx) + by)) \div (ax * by) + 2
 
